@@ -39,6 +39,7 @@ import (
 	"path/filepath"
 	"sort"
 	"strings"
+	"syscall"
 	"testing"
 	"time"
 
@@ -504,6 +505,8 @@ func (w *blobWorld) drawPlan() {
 	rate := [...]int{0, 2, 4, 8}[D("frate", 4)]
 	chunked := D("chunked", 2) == 0
 	inOrder := D("inorder", 2) == 0
+	// disk-error arm: one mutating file-system call in 25 fails (ENOSPC; EACCES for rename/remove)
+	w.ctl.ErrRate = [...]int{0, 0, 0, 25}[D("disk-errors", 4)]
 	for i := 0; i < nd; i++ {
 		n := 0
 		if i > 0 && D("samesize", 3) == 0 {
@@ -640,7 +643,7 @@ func (w *blobWorld) drawPlan() {
 	if w.isolated {
 		arm = "isolated"
 	}
-	w.note("case: %s arm, digests [%s], %d names, %d writers, reader fault rate 1/%d, duel=%v", arm, strings.Join(ds, " "), nn, nw, rate, duel)
+	w.note("case: %s arm, digests [%s], %d names, %d writers, reader fault rate 1/%d, disk error rate 1/%d, duel=%v", arm, strings.Join(ds, " "), nn, nw, rate, w.ctl.ErrRate, duel)
 	for wi, p := range w.plans {
 		var ops []string
 		for _, op := range p {
@@ -748,6 +751,9 @@ func (w *blobWorld) digestCause(d *blobDigest, chunks bool) string {
 	}
 	switch len(fk) {
 	case 0:
+		if w.ctl.ErrRate > 0 {
+			return "disk-errors"
+		}
 		return "none"
 	case 1:
 		return fk[0]
@@ -767,6 +773,8 @@ func (w *blobWorld) nameCause(m *nameModel) string {
 		return "linked-incomplete-blob"
 	case w.crashKind != "":
 		return "after-crash"
+	case w.ctl.ErrRate > 0:
+		return "disk-errors"
 	}
 	return "none"
 }
@@ -1155,6 +1163,10 @@ func (w *blobWorld) doResolve(who string, m *nameModel, variant int) string {
 			return "absent"
 		}
 		verifsim.Probe("resolve_error")
+		if errors.Is(err, syscall.ENOSPC) || errors.Is(err, syscall.EACCES) {
+			// the disk-error arm: Resolve has to store the manifest as a blob and may fail like any store
+			return "error"
+		}
 		if !seen[""] {
 			w.violate("resolve:"+cause+":resolve-error-but-linked", "Resolve(%s) fails with %v although the name is linked\n%s", name, err, ctx())
 		}
@@ -1254,6 +1266,10 @@ func (w *blobWorld) doOp(who string, op blobOp) {
 // audit: quiescent check of everything (end of the reference run, after the
 // reopen, after the redo operations).
 func (w *blobWorld) audit(where string) {
+	// the audit is the oracle's own look at the cache: no disk errors while it runs
+	rate := w.ctl.ErrRate
+	w.ctl.ErrRate = 0
+	defer func() { w.ctl.ErrRate = rate }()
 	verifsim.Atomic(func() { w.checkDigests(where) })
 	for _, m := range w.names {
 		first := ""
